@@ -103,8 +103,9 @@ def run_case(arg):
         sig0 = "+".join(k for k in ("isolate", "match_links", "symbolic_links", "transform") if o.get(k)) or "plain"
         sig0 += ":" + (o["rf"][0] if o["rf"] else "default")
         outs = {}
+        amb = common.ambient_env(r, elsewhere=d)
         for fmt in ("default", "json", "csv", "fdupes"):
-            res, argv = gm.run_group(o, roots, troot, home, fmt=fmt)
+            res, argv = gm.run_group(o, roots, troot, home, fmt=fmt, extra_env=amb)
             w = {"case": i, "opts": o, "spec": spec, "fmt": fmt, "argv": [fsd(a) for a in argv], "rc": res.rc, "stderr": res.err_text()[-1200:],
                  "stdout": res.out.decode("utf-8", "replace")[:3000]}
             if res.timed_out:
